@@ -54,12 +54,18 @@ DlFeasible(s) == s.q.k <= s.n /\ (~s.q.resume => s.q.k = 0) /\ (~s.info => s.cl 
 Stopped == out.op \in {"request", "resume"} /\ ~out.granted
 Active == up.ph \in {"granted", "xfer", "refused"}
 
+(* the optional transfer-size field (108) of a 203 request, present or absent, with and without the resume option:
+   the statement gives it no influence on what is stored (Request / Resume ignore s.size).  The exhaustive check
+   enumerates both; emitted scripts leave it open ("any") and the driver draws it for every request. *)
+SizeField == IF Big THEN {"any"} ELSE {"present", "absent"}
+
 UpSteps ==
   IF out.op = "dl" \/ Stopped THEN {}
   ELSE
     (IF up.ph \in {"idle", "dead"}
-       THEN (IF up.inc.on THEN {[op |-> "resume"]} ELSE {[op |-> "request"]})
-            \cup (IF AllowFresh /\ up.inc.on THEN {[op |-> "request"]} ELSE {})
+       THEN (IF up.inc.on THEN {[op |-> "resume", size |-> z] : z \in SizeField}
+                          ELSE {[op |-> "request", size |-> z] : z \in SizeField})
+            \cup (IF AllowFresh /\ up.inc.on THEN {[op |-> "request", size |-> z] : z \in SizeField} ELSE {})
        ELSE {})
     \cup (IF up.ph = "done"
             THEN (IF out.op = "publish" THEN {[op |-> "download"]} ELSE
